@@ -34,6 +34,7 @@
 #define X_UNKNOWN_ELECTIVE 9
 #define X_NORESPONSE 10     /* symbolic value */
 #define X_PROXY_SCHEME 11   /* with Uri-Host */
+#define X_ACCEPT_BLOCK2M 12 /* Accept (empty) + Block2 NUM=0 M=1 SZX=0: the M bit is cleared in place and the option scan restarts */
 #ifndef TABLE
 #define TABLE 0             /* bit0: resource "a" has no handler for METHOD; bit1: unknown-resource handler registered; bit2: proxy resource */
 #endif
@@ -66,7 +67,12 @@ h_handler(coap_resource_t *resource, coap_session_t *session, const coap_pdu_t *
 coap_resource_t *
 coap_get_resource_from_uri_path_lkd(coap_context_t *context, coap_str_const_t *uri_path) {
   (void)context;
+#if TABLE & 8
+  /* the known resource is registered under the two-segment path "a/b" */
+  if (res_a && uri_path->length == 3 && uri_path->s[0] == 'a' && uri_path->s[1] == '/' && uri_path->s[2] == 'b') return res_a;
+#else
   if (res_a && uri_path->length == 1 && uri_path->s[0] == 'a') return res_a;
+#endif
   return NULL;
 }
 
@@ -122,6 +128,11 @@ VERIF_HARNESS(c10_s3_request) {
   coap_add_option(req, COAP_OPTION_URI_PATH, 1, (const uint8_t *)"a");
 #elif PATH == 2
   coap_add_option(req, COAP_OPTION_URI_PATH, 1, (const uint8_t *)"b");
+#elif PATH == 4
+  coap_add_option(req, COAP_OPTION_URI_PATH, 3, (const uint8_t *)"a/b");      /* ONE segment containing a slash */
+#elif PATH == 5
+  coap_add_option(req, COAP_OPTION_URI_PATH, 1, (const uint8_t *)"a");
+  coap_add_option(req, COAP_OPTION_URI_PATH, 1, (const uint8_t *)"b");
 #elif PATH == 3
   coap_add_option(req, COAP_OPTION_URI_PATH, 11, (const uint8_t *)".well-known");
   coap_add_option(req, COAP_OPTION_URI_PATH, 4, (const uint8_t *)"core");
@@ -147,6 +158,9 @@ VERIF_HARNESS(c10_s3_request) {
   coap_add_option_internal(req, COAP_OPTION_PROXY_SCHEME, 4, (const uint8_t *)"coap");
 #elif EXTRA == X_NORESPONSE
   coap_add_option(req, COAP_OPTION_NORESPONSE, 1, &nores);
+#elif EXTRA == X_ACCEPT_BLOCK2M
+  coap_add_option(req, COAP_OPTION_ACCEPT, 0, NULL);
+  { uint8_t b = 0x08; coap_add_option(req, COAP_OPTION_BLOCK2, 1, &b); }
 #elif EXTRA == X_UNKNOWN_CRIT
   coap_add_option(req, 65001, 2, val);
 #elif EXTRA == X_UNKNOWN_ELECTIVE
